@@ -1067,6 +1067,11 @@ func (ro *RedisOutput) sendCmdsBatch(replayWait usync.WaitCloser, conn client.Re
 				delayNs:    delayNs,
 			}:
 			case <-replayWait.Context().Done():
+				// the batch is on the wire already: it must not stay queued, or the next flush of
+				// the ending sender dispatches it a second time (a closer cancelled through its
+				// parent context reports no error yet, so the caller would go on)
+				cmdQueue = cmdQueue[:0]
+				queuedByteSize = 0
 				return replayWait.Error()
 			}
 		} else {
